@@ -91,7 +91,12 @@ def run(ctx, rep):
         gate = lambda f: fact_match(f, "is", "^None$", "total_samples") or fact_match(f, "cmp", "^Le$", "samples_written", "NonZero::get|total")
         rep.check("C14.len", "encode_frame is reached only with no declared total or samples_written <= total", len(ef) == 1 and ok.must_pass(eb0, ef[0][0], gate), loc_of(eb0), "",
                   "a frame can be emitted before (or without) the declared-length check: an over-long write leaves a complete frame the decoder will not deliver")
+    # (and that check must look at the counter *including* the block at hand: C15.len)
+    compose(ctx, rep, "C15", "C14.decl", r"^C15\.len$", key_only=r"declared-length check sees the counter")
     iolib.count_rules(ctx, rep, "C14")
+    # recovering every complete frame also needs readers that hand out what they have decoded before decoding on (a
+    # later frame's error must not swallow earlier complete frames): C07.refill / C07.eof
+    compose(ctx, rep, "C07", "C14.rd", r"^C07\.(refill|eof)$")
 
     # ---- C14.count: Encoder::encode writes only through encode_frame
     eb = anchor(F, rep, "C14.count", "encode::Encoder::encode")
